@@ -641,3 +641,84 @@ Proof.
   intros. apply get_char_spec_proof; [assumption|]. apply contribs_no_transp.
   apply Forall_forall. intros x Hx. apply in_rev in Hx. rewrite Forall_forall in H0. auto.
 Qed.
+
+(* ------------------------------------------------------------------------------------------ *)
+(* 9. the result is determined by the visible layers covering the position, and by nothing of them but
+   mode, alpha flag, default font page and the cell held at the position *)
+Definition visited (px py : Z) (L : layer) : bool := is_visit (status_of L px py).
+
+Lemma run_filter_visited : forall fonts px py ls s,
+  Forall (fun L => no_overflow L px py) ls ->
+  run fonts px py (filter (visited px py) ls) s = run fonts px py ls s.
+Proof.
+  induction ls as [|L ls IH]; intros s H; [reflexivity|].
+  inversion H as [|? ? HL Hr]; subst. cbn [filter run]. unfold visited at 1.
+  rewrite (step_status fonts L px py s).
+  destruct (status_of L px py) eqn:E; cbn [is_visit].
+  - apply IH. assumption.
+  - cbn [run]. rewrite step_status, E. destruct (visit fonts L qx qy s); try reflexivity. apply IH. assumption.
+  - exfalso. unfold status_of in E. destruct (negb (l_visible L)); [discriminate|].
+    unfold no_overflow in HL. destruct (rel_pos L px py) as [[qx qy]|]; [|congruence].
+    destruct (inside L qx qy); discriminate.
+Qed.
+
+Lemma filter_rev_comm : forall {A} (f : A -> bool) (l : list A), filter f (rev l) = rev (filter f l).
+Proof.
+  induction l as [|x l IH]; [reflexivity|]. cbn [rev filter]. rewrite filter_app, IH. cbn [filter].
+  destruct (f x); cbn [rev]; [reflexivity | rewrite app_nil_r; reflexivity].
+Qed.
+
+Lemma determined_by_visited_proof : forall B ls px py,
+  Forall (fun L => no_overflow L px py) ls ->
+  get_char (with_layers B ls) px py = get_char (with_layers B (filter (visited px py) ls)) px py.
+Proof.
+  intros. rewrite !get_char_unfold. cbn [with_layers b_layers b_term b_fonts].
+  rewrite <- filter_rev_comm, run_filter_visited; [reflexivity|].
+  apply Forall_forall. intros x Hx. apply in_rev in Hx. rewrite Forall_forall in H. auto.
+Qed.
+
+(* what the loop reads of a visited layer *)
+Definition facet := (lmode * bool * N * cell)%type.
+Definition facet_of (x : lc) : facet := (l_mode (fst x), l_alpha (fst x), l_dfp (fst x), snd x).
+
+Definition proxy (f : facet) : layer :=
+  let '(m, a, d, c) := f in mkLayer true a m (0, 0)%Z None 1 1 d [[c]].
+
+Lemma visit_proxy : forall fonts L qx qy s,
+  visit fonts L qx qy s = visit fonts (proxy (facet_of (L, layer_get_char L qx qy))) 0 0 s.
+Proof. intros. reflexivity. Qed.
+
+Lemma status_proxy : forall f, status_of (proxy f) 0 0 = Visit 0 0.
+Proof. intros [[[m a] d] c]. reflexivity. Qed.
+
+(* the loop over a stack is the loop over the 1x1 proxies of its contributions *)
+Lemma run_as_facets : forall fonts px py ls s,
+  Forall (fun L => no_overflow L px py) ls ->
+  run fonts px py ls s = run fonts 0 0 (map proxy (map facet_of (contribs px py ls))) s.
+Proof.
+  induction ls as [|L ls IH]; intros s H; [reflexivity|].
+  inversion H as [|? ? HL Hr]; subst. unfold contribs. cbn [flat_map run]. rewrite map_app, map_app.
+  rewrite step_status. unfold contrib_of. destruct (status_of L px py) eqn:E.
+  - cbn [map app]. apply IH. assumption.
+  - cbn [map app run]. rewrite step_status, status_proxy. rewrite <- visit_proxy.
+    destruct (visit fonts L qx qy s); try reflexivity. apply IH. assumption.
+  - exfalso. unfold status_of in E. destruct (negb (l_visible L)); [discriminate|].
+    unfold no_overflow in HL. destruct (rel_pos L px py) as [[qx qy]|]; [|congruence].
+    destruct (inside L qx qy); discriminate.
+Qed.
+
+Lemma run_facets : forall fonts px py ls ls' s,
+  Forall (fun L => no_overflow L px py) ls -> Forall (fun L => no_overflow L px py) ls' ->
+  map facet_of (contribs px py ls) = map facet_of (contribs px py ls') ->
+  run fonts px py ls s = run fonts px py ls' s.
+Proof. intros. rewrite (run_as_facets fonts px py ls), (run_as_facets fonts px py ls') by assumption. rewrite H1. reflexivity. Qed.
+
+Lemma determined_by_contributions_proof : forall B ls ls' px py,
+  Forall (fun L => no_overflow L px py) ls -> Forall (fun L => no_overflow L px py) ls' ->
+  map facet_of (contribs px py (rev ls)) = map facet_of (contribs px py (rev ls')) ->
+  get_char (with_layers B ls) px py = get_char (with_layers B ls') px py.
+Proof.
+  intros. rewrite !get_char_unfold. cbn [with_layers b_layers b_term b_fonts]. f_equal.
+  apply run_facets; try assumption; apply Forall_forall; intros x Hx; apply in_rev in Hx;
+    [rewrite Forall_forall in H | rewrite Forall_forall in H0]; auto.
+Qed.
